@@ -131,6 +131,77 @@ func (this *LexPart) undefinedRegDef(pattern *LexPattern) string {
 	return ""
 }
 
+// ExpandRegDefs replaces every use of a regular definition in a token or ignored
+// token pattern by a group that holds the pattern of the definition (recursively):
+// regular definitions are macros, so every use site must get lexer items of its own.
+// Sharing the items of one definition between its use sites made the lexer accept
+// or reject text depending on which other patterns used the same definition.
+func (this *LexPart) ExpandRegDefs() error {
+	for _, p := range this.ProdList.Productions {
+		switch def := p.(type) {
+		case *LexTokDef:
+			pattern, err := this.expandRegDefs(def.pattern, nil)
+			if err != nil {
+				return err
+			}
+			def.pattern = pattern
+		case *LexIgnoredTokDef:
+			pattern, err := this.expandRegDefs(def.pattern, nil)
+			if err != nil {
+				return err
+			}
+			def.pattern = pattern
+		}
+	}
+	return nil
+}
+
+func (this *LexPart) expandRegDefs(pattern *LexPattern, expanding []string) (*LexPattern, error) {
+	expanded := &LexPattern{Alternatives: make([]*LexAlt, len(pattern.Alternatives))}
+	for i, alt := range pattern.Alternatives {
+		newAlt := &LexAlt{Terms: make([]LexTerm, len(alt.Terms))}
+		for j, term := range alt.Terms {
+			var sub *LexPattern
+			var wrap func(*LexPattern) LexTerm
+			switch t := term.(type) {
+			case *LexRegDefId:
+				def, defined := this.RegDefs[t.Id]
+				if !defined {
+					break // imported
+				}
+				for _, id := range expanding {
+					if id == t.Id {
+						return nil, fmt.Errorf("regular definition %s is defined in terms of itself", t.Id)
+					}
+				}
+				p, err := this.expandRegDefs(def.pattern, append(expanding, t.Id))
+				if err != nil {
+					return nil, err
+				}
+				newAlt.Terms[j] = &LexGroupPattern{p}
+				continue
+			case *LexGroupPattern:
+				sub, wrap = t.LexPattern, func(p *LexPattern) LexTerm { return &LexGroupPattern{p} }
+			case *LexOptPattern:
+				sub, wrap = t.LexPattern, func(p *LexPattern) LexTerm { return &LexOptPattern{p} }
+			case *LexRepPattern:
+				sub, wrap = t.LexPattern, func(p *LexPattern) LexTerm { return &LexRepPattern{p} }
+			}
+			if sub == nil {
+				newAlt.Terms[j] = term
+				continue
+			}
+			p, err := this.expandRegDefs(sub, expanding)
+			if err != nil {
+				return nil, err
+			}
+			newAlt.Terms[j] = wrap(p)
+		}
+		expanded.Alternatives[i] = newAlt
+	}
+	return expanded, nil
+}
+
 func (this *LexPart) StringLitTokDef(id string) *LexTokDef {
 	tokDef := this.stringLitToks[id]
 	return tokDef
